@@ -76,6 +76,9 @@ structure WellFormed (g : List Rec) (d : Delivered) : Prop where
   nl_vars : ∀ i, i < d.nlVars → ∃ info, Rec.var i true info ∈ g
   /-- every (selected) objective of the NL model appears -/
   nl_objs : ∀ i, i < d.nlObjs → Rec.nlObj i ∈ g
+  /-- every common expression (defined variable) of the NL model appears, and no other -/
+  nl_defvars : ∀ i, i < d.nlDefVars → Rec.nlDefVar i ∈ g
+  nldefvars_exist : ∀ i, Rec.nlDefVar i ∈ g → i < d.nlDefVars
   /-- every algebraic constraint of the NL model appears -/
   nl_alg : ∀ i, i < d.nlAlgCons → Rec.nlCon i false ∈ g
   /-- every logical constraint of the NL model appears (indexed after the algebraic ones) -/
@@ -116,9 +119,12 @@ structure WellFormed (g : List Rec) (d : Delivered) : Prop where
 theorem C20_validator_sound (g : List Rec) (d : Delivered) (h : checkGraph g d = true) : WellFormed g d := by
   unfold checkGraph at h
   simp only [Bool.and_eq_true, List.all_eq_true, List.mem_range, List.contains_iff_mem, beq_iff_eq] at h
-  obtain ⟨⟨⟨⟨⟨⟨⟨⟨⟨h1, h2⟩, h3⟩, h4⟩, h5⟩, h6⟩, hv⟩, ho⟩, h7⟩, h8⟩ := h
-  refine ⟨fun i hi => hasVar_spec g i true (h1 i hi), h2, ?_, ?_, ?_, fun i hi => hasObj_spec g i (h5 i hi),
+  obtain ⟨⟨⟨⟨⟨⟨⟨⟨⟨⟨h1, h2⟩, hdv⟩, h3⟩, h4⟩, h5⟩, h6⟩, hv⟩, ho⟩, h7⟩, h8⟩ := h
+  refine ⟨fun i hi => hasVar_spec g i true (h1 i hi), h2, hdv, ?_, ?_, ?_, ?_, fun i hi => hasObj_spec g i (h5 i hi),
     ?_, ?_, ?_, ?_, ?_, ?_, ?_, ?_, ?_, ?_, h7, h8⟩
+  · intro i hm
+    have := h6 _ hm
+    simpa [recOk] using this
   · intro i hi
     have := h3 i (by omega)
     simpa [show ¬ d.nlAlgCons ≤ i by omega] using this
@@ -247,7 +253,7 @@ def exG (last : Nat) : List Rec :=
    .var 0 true ⟨0, false, true⟩, .obj 0 ⟨0, [0], [], []⟩, .conStatus cl!"_linrange" 0 cl!"c" false false true,
    .conGroup cl!"_linrange" 3,
    .link cl!"CopyLink" 2 [⟨cl!"_linrange", 0, 0⟩] [⟨cl!"dest_cons(3)", 0, 0⟩]]
-def exD : Delivered := ⟨1, 1, 1, 0, [⟨0, false, true⟩], [⟨0, [0], [], []⟩], [⟨cl!"_linrange", 3, cl!"c"⟩]⟩
+def exD : Delivered := ⟨1, 1, 1, 0, 0, [⟨0, false, true⟩], [⟨0, [0], [], []⟩], [⟨cl!"_linrange", 3, cl!"c"⟩]⟩
 /-- the delivered objective is linear in variable 0, but the *last* objective record still shows the quadratic one (seeded change C20-4) -/
 def exGstaleObj : List Rec := (exG 0).erase (.obj 0 ⟨0, [0], [], []⟩)
 example : checkGraph (exG 0) exD = true := by decide
